@@ -13,6 +13,7 @@ import (
 	"os"
 	"runtime"
 	"strings"
+	"sync"
 
 	"github.com/33cn/chain33/blockchain"
 	"github.com/33cn/chain33/client"
@@ -57,7 +58,8 @@ type Outcome struct {
 	Dropped  int        `json:"dropped"`
 	BlockID  string     `json:"blockid"` // sha256 of the encoded block as built
 	// digests (hex sha256) of the byte encodings: receipts, state write set, root, local add set, local del set
-	DRcpt string `json:"drcpt,omitempty"`
+	DRcpt  string `json:"drcpt,omitempty"`
+	DRcpt1 string `json:"drcpt1,omitempty"` // receipts of EventExecTxList alone
 	DKV   string `json:"dkv,omitempty"`
 	DLAdd string `json:"dladd,omitempty"`
 	DLDel string `json:"dldel,omitempty"`
@@ -257,6 +259,7 @@ func (r *Rig) Exec(blk *types.Block, feeWant int64) (*Outcome, *types.BlockDetai
 		return out, nil
 	}
 	out.DRcpt = dig(types.Encode(rc))
+	out.DRcpt1 = out.DRcpt
 	for _, x := range rc.Receipts {
 		out.Tys = append(out.Tys, int(x.Ty))
 		var es []Echo
@@ -307,6 +310,38 @@ func (r *Rig) Exec(blk *types.Block, feeWant int64) (*Outcome, *types.BlockDetai
 		}
 	}
 	return out, detail
+}
+
+// ExecConcurrent sends the block to the executor n times at once (the executor serves every
+// EventExecTxList in its own goroutine) while a side block is executed as well; returns the digest
+// of each reply's receipts.
+func (r *Rig) ExecConcurrent(blk *types.Block, side *types.Block, n int) []*Outcome {
+	outs := make([]*Outcome, n)
+	prior := r.tip.StateHash
+	var wg sync.WaitGroup
+	for i := 0; i < n; i++ {
+		wg.Add(1)
+		go func(i int) {
+			defer wg.Done()
+			o := &Outcome{Height: blk.Height, Prior: hex.EncodeToString(prior), BlockID: dig(types.Encode(blk))}
+			rc, err := util.ExecTx(r.cli, prior, types.Clone(blk).(*types.Block))
+			if err != nil {
+				o.Rejected, o.Err = true, err.Error()
+			} else {
+				o.DRcpt1 = dig(types.Encode(rc))
+			}
+			outs[i] = o
+		}(i)
+	}
+	if side != nil {
+		wg.Add(1)
+		go func() {
+			defer wg.Done()
+			util.ExecTx(r.cli, prior, types.Clone(side).(*types.Block))
+		}()
+	}
+	wg.Wait()
+	return outs
 }
 
 // Connect executes the block (as Exec) and then connects it to the chain through
